@@ -32,6 +32,16 @@ Theorem C05_T2_ymd_roundtrip tz t rest : 0 <= t < 18446744073709551616 ->
   DAY_2000 <= (t / 1000000 + tz) / 86400 < DAY_2256 -> parse_ymd tz (create_ymd tz t ++ rest) 0 = t.
 Proof. exact (ymd_roundtrip tz t rest). Qed.
 Print Assumptions C05_T2_ymd_roundtrip.
+(* ... in a process time zone with daylight saving (dst: its daylight periods in UTC seconds; local time is then tz + 3600): the
+   calendar time is interpreted in the process time zone - as daylight time when it is one -, so what createTimeYMD wrote decodes
+   to the instant, except inside the hour repeated when daylight saving ends *)
+Theorem C05_T2_ymd_roundtrip_dst tz dst t rest : 0 <= t < 18446744073709551616 -> -86400 <= tz <= 86400 ->
+  DAY_2000 <= (t / 1000000 + tz) / 86400 -> (t / 1000000 + tz + DST_SAVE) / 86400 < DAY_2256 -> unambiguous dst t ->
+  parse_ymd_z tz dst (create_ymd_z tz dst t ++ rest) 0 = t.
+Proof. exact (ymd_roundtrip_z tz dst t rest). Qed.
+Print Assumptions C05_T2_ymd_roundtrip_dst.
+Theorem C05_T2_no_dst tz b off : parse_ymd_z tz [] b off = parse_ymd tz b off.
+Proof. exact (parse_ymd_z_nodst tz b off). Qed.
 
 (* T4: every point of a mechanical block (valid or placeholder): block time + channel firing offset *)
 Theorem C05_T4_point_ts d c s t w sect b blk_off block_az az_diff block_ts chan :
@@ -101,7 +111,7 @@ Print Assumptions C05_T7_host_independent.
 (* R1 (recorded finding D15): with ts_first_point the first cloud of a session is stamped 0 *)
 Example C05_R1_first_cloud_zero :
   let d := desc_RS32 in
-  let c := mk_dcfg false false 3 0 12 dy_zero dy_zero 0 36000 true true false 0 0 0 false in
+  let c := mk_dcfg false false 3 0 12 dy_zero dy_zero 0 36000 true true false 0 0 0 false [] in
   let mk az := [85;170;5;10;90;165;80;160] ++ repeat 0 12 ++ [23;11;14;22;13;20;0;0;0;0] ++ repeat 0 12 ++
                flat_map (fun k => [255;238; (az + 20 * k) / 256; (az + 20 * k) mod 256] ++ repeat 7 96) (map Z.of_nat (seq 0 12)) ++ repeat 0 6 in
   let '(v0, th, _) := init_drv d c [] 1000 [] 10 in
